@@ -136,6 +136,21 @@ Proof.
   eapply budget_not_below_samples_accepts_all; eassumption.
 Qed.
 
+Lemma c04_verdict_general : forall t failable answer evs, tol_neg t = false -> (0 <= failable)%Z ->
+  Forall finite_sample evs ->
+  gen_raw_check t failable answer evs =
+    Some (if enough (zlen evs) (misses t evs) failable then answer else fail_entry answer).
+Proof. intros. rewrite gen_raw_check_model. apply verdict_general; assumption. Qed.
+
+Lemma c04_verdict_total : forall t failable answer evs, (0 <= failable)%Z -> Forall well_shaped evs ->
+  exists bs, sample_oks (fun x y => gen_within x y t) evs = Some bs /\ length bs = length evs /\
+    gen_raw_check t failable answer evs =
+      Some (if enough (zlen evs) (nfail bs) failable then answer else fail_entry answer).
+Proof.
+  intros t failable answer evs Hf H. destruct (verdict_total t failable answer evs Hf H) as [bs [H1 [H2 H3]]].
+  exists bs. rewrite gen_sample_oks, gen_raw_check_model. repeat split; assumption.
+Qed.
+
 (* ---- closed examples (non-vacuity, reading notes) ---- *)
 Definition q (n : Z) (d : positive) : Q := Qmake n d.
 Definition arr22 (a b c d : Q) : value := VArr [2; 2]%Z [(a, 0); (b, 0); (c, 0); (d, 0)].
